@@ -48,6 +48,17 @@ def runC20 (line : String) : String :=
         | none => "panic"
         | some c => fmtView (k == "s") c
     | _, _, _, _, _, _, _, _, _ => "bad-case"
+  | ["D", k, len, pitch, w, h, c, ox, oy, cw, ch, ox2, oy2, cw2, ch2] =>
+    match nat? len, nat? pitch, nat? w, nat? h, (nat? c).bind colorBpp,
+          [ox, oy, cw, ch, ox2, oy2, cw2, ch2].mapM nat? with
+    | some len, some pitch, some w, some h, some bpp, some [ox, oy, cw, ch, ox2, oy2, cw2, ch2] =>
+      match View.newWith len pitch w h bpp with
+      | none => "none"
+      | some v =>
+        match (v.croppedP ox oy cw ch).bind (fun c1 => c1.croppedP ox2 oy2 cw2 ch2) with
+        | none => "panic"
+        | some c => fmtView (k == "s") c
+    | _, _, _, _, _, _ => "bad-case"
   | _ => "bad-case"
 
 end Dds.Drv
